@@ -174,6 +174,12 @@ func transferMenu(w *world.World, o menuOpts) []world.Action {
 				lists = append(lists, []tnq{x, two}, []tnq{two, x})
 			}
 		}
+		// the same entry twice, each quantity within the holding, the sum above it
+		for _, x := range ones {
+			if h := held(w, from, string(x.Tok)+spec.NonceSuffix(uint64(x.Nonce))); h >= 2 {
+				lists = append(lists, []tnq{{Tok: x.Tok, Nonce: x.Nonce, Q: h}, {Tok: x.Tok, Nonce: x.Nonce, Q: 1}}, []tnq{{Tok: x.Tok, Nonce: x.Nonce, Q: h - 1}, {Tok: x.Tok, Nonce: x.Nonce, Q: 2}})
+			}
+		}
 		// pairs with different quantities (an entry of quantity 1 next to an entry of quantity > 1)
 		for _, x := range ones {
 			for _, y := range singles {
